@@ -150,7 +150,14 @@ type streamRun struct {
 
 // runHandleMessages feeds bs (then closes the input) to the real HandleMessages.
 func runHandleMessages(start time.Time, bs []byte, capIn, capOut int) *streamRun {
-	h := handler.New(start, slog.LevelInfo)
+	// the handler's log level is a configuration the framing must not depend on: the level is derived
+	// from the input, so that every class of stream is framed at both levels (file_handler always
+	// uses debug, the proxy info)
+	level := slog.LevelInfo
+	if len(bs)%2 == 1 {
+		level = slog.LevelDebug
+	}
+	h := handler.New(start, level)
 	in := make(chan byte, capIn)
 	out := make(chan handler.Message, capOut)
 	panicCh := make(chan string, 1)
@@ -221,7 +228,11 @@ func init() {
 		return &Obs{Line: fmt.Sprintf("ok %d", v), Data: v}
 	}
 	opTable["getmsg"] = func(t []string) *Obs {
-		h := handler.New(unixms(t[1]), slog.LevelInfo)
+		glevel := slog.LevelInfo
+		if len(t[2])%4 == 2 {
+			glevel = slog.LevelDebug
+		}
+		h := handler.New(unixms(t[1]), glevel)
 		in := unhx(t[2])
 		m, err := h.GetMessage(in)
 		return &Obs{Line: canonGet(m, err), Data: []any{m, err, in}}
